@@ -40,7 +40,8 @@ pub fn input(family: &str, n: usize) -> String {
         "comparators" => (1..=n).map(|i| format!(">=0.0.{}", i)).collect::<Vec<_>>().join(" "),
         "hyphens" => "1 - 2 ".repeat(n),
         "garbage" => "foo ".repeat(n),
-        "idents" => format!(">=1.2.3-{}", vec!["a"; n].join(".")),
+        // two bounds sharing a long common prefix of identifiers
+        "idents" => format!(">=1.2.3-{}.a <1.2.3-{}.b", vec!["a"; n].join("."), vec!["a"; n].join(".")),
         "newlines" => format!("{}blerg", "\n".repeat(n)),
         "peel" => ">=0.0.0".to_string(),
         "nested_or" => format!("{}1.2.3", "|| ".repeat(n)),
@@ -140,6 +141,13 @@ pub fn exercise(family: &str, n: usize) {
                 let mut h = std::collections::hash_map::DefaultHasher::new();
                 m.hash(&mut h);
                 std::hint::black_box(h.finish());
+            }
+            if family != "alts" && family != "alts_square" && family != "nested_or" {
+                // a value against itself (equal long prefixes everywhere)
+                std::hint::black_box(big.intersect(&big).map(|r| r.to_string().len()));
+                std::hint::black_box(big.difference(&big).is_none());
+                std::hint::black_box(big.allows_all(&big));
+                std::hint::black_box(big.allows_any(&big));
             }
             if family == "alts_square" {
                 std::hint::black_box(big.difference(&big).is_none());
